@@ -5,6 +5,7 @@ import json
 from typing import List
 
 from harness.lib.core import VERIF, Ctx, lean_lock, run_driver, shrink_ops
+from harness.extract import filter as x_filter
 from harness.extract import forward as x_forward
 from harness.rigs import net08 as rnet
 from harness.rigs import route as rroute
@@ -229,6 +230,7 @@ def replay(rec: dict) -> bool:
 def run(ctx: Ctx):
     with lean_lock():
         ctx.extract("Forward", x_forward.emit)
+        ctx.extract("Filter", x_filter.emit)  # C06's extractor: firewall entry points (tied by C08_gen_firewall)
         ctx.prove(MODULES, exes=[EXE], clean=False, leanchecker=ctx.thorough)
     ctx.cov["rule"] = ("route cases = (surface in {RouteTable api, Router.from_config}, table, default, interleaved queries), non-trivial "
                        "when some query is answered by a table entry or raises; net cases = (generated topology of hosts (single- or "
